@@ -1,6 +1,30 @@
-(* C16 — stub: model not yet built (the property is listed under not_applicable until it is). *)
+(* C16 — wire functions for the console encoder. *)
 From Coq Require Import List ZArith Bool.
+From Coq.Strings Require Import Byte.
 Import ListNotations.
-From Zap Require Import Base.Wire.
-Definition model (i : sx) : sx := SL [].
-Definition spec (i o : sx) : bool := false.
+From Zap Require Import Base.Wire Enc.Bytes Enc.Fields Enc.JsonEnc Enc.JsonParse Enc.WireEnc Enc.JsonAst Enc.Wf Enc.Console Enc.Parse3.
+
+(* observation: (line) *)
+Definition model (i : sx) : sx :=
+  let ec := dec_case i in let c := ec_cfg ec in
+  SL [SB (console_encode c (with_chain c true (ec_ctxs ec)) (ec_ent ec) (ec_fs ec))].
+
+(* the oracle: the line is exactly the documented shape over the reference tree semantics, and its
+   context object (if any) parses to the members the JSON encoder emits for the same fields *)
+Definition spec (i o : sx) : bool :=
+  let ec := dec_case i in let c := ec_cfg ec in
+  match sx_l o with
+  | [SB out] =>
+      bytes_eqb out (console_spec c (ec_ctxs ec) (ec_ent ec) (ec_fs ec)) &&
+      (let ms := close (ev_flds c (ec_fs ec) (ev_with_chain c (ec_ctxs ec))) in
+       match ms with
+       | [] => true
+       | _ => match parse (pv true (TObj ms)), parse (pv false (TObj ms)) with
+              | Some a, Some b => match a, b with JObj _, JObj _ => true | _, _ => false end
+              | _, _ => false
+              end
+       end)
+  | _ => false
+  end.
+Definition wf (i : sx) : bool :=
+  let ec := dec_case i in forallb wf_flds (ec_ctxs ec) && wf_flds (ec_fs ec) && wf_entry (ec_ent ec).
